@@ -25,6 +25,7 @@ type specEnv struct {
 	inOld        bool
 	qn           *int
 	pkg          *ssa.Package
+	skipBlocks   map[*ssa.BasicBlock]bool
 	freshExcl    []T  // at a call site: fresh(x) also means distinct from the caller's earlier allocations
 	collectFresh *[]T // at a call site: objects the callee guarantees fresh join the caller's fresh set
 }
@@ -132,6 +133,9 @@ func (e *specEnv) lookup(name string) Val {
 	if e.cellsFirst && !e.inOld {
 		var best *Cell
 		for al, c := range e.f.cellOf {
+			if e.skipBlocks != nil && e.skipBlocks[al.Block()] {
+				continue // declared inside the loop body: not in scope at the loop head
+			}
 			if al.Comment == name {
 				if _, live := st.cells[c]; live && (best == nil || c.id > best.id) {
 					best = c
@@ -635,6 +639,18 @@ func (e *specEnv) callSpec(n *ECall) Val {
 		v := e.eval(n.Args[1])
 		e.st = saved
 		return v
+	case "store":
+		// store(s, i, v): s with element i replaced by v (a different memory)
+		b := argv(0).(VSlice)
+		i := e.evalInt(n.Args[1])
+		v := e.evalInt(n.Args[2])
+		r := ex.newRegion("upd", b.R.strict, false)
+		e.cur().mem[r] = []T{tStore(e.memOf(b)[0], tIdx(b.Off, i), v)}
+		return VSlice{R: r, Elem: b.Elem, Off: b.Off, Len: b.Len, Cap: b.Cap, Str: b.Str}
+	case "view":
+		// view(s, o, n): the n bytes of s's memory at absolute offset o (o is an address, not an index)
+		b := argv(0).(VSlice)
+		return VSlice{R: b.R, Elem: b.Elem, Off: e.evalInt(n.Args[1]), Len: e.evalInt(n.Args[2]), Cap: e.evalInt(n.Args[2]), Str: b.Str}
 	case "HEAPTOP":
 		return VInt{ex.heapTop()}
 	case "u32":
